@@ -70,8 +70,11 @@ type World struct {
 
 	Invokes []*Invocation
 	actors  []*Actor
-	Eng     *Engine // the engine driving this world (last created)
-	BS      interop.Bootstrap
+
+	slowAfter int
+	slowPause time.Duration
+	Eng       *Engine // the engine driving this world (last created)
+	BS        interop.Bootstrap
 }
 
 var fixtureBase string
@@ -303,6 +306,14 @@ type Invocation struct {
 }
 
 // Invoke posts an event to the front door (new connection, like curl).
+// InvokeSlow is Invoke by a caller that reads its answer slowly: a receive buffer of 64 KiB, a pause after the
+// first after bytes of the body.
+func (w *World) InvokeSlow(payload []byte, clientCtx, traceID string, after int, pause time.Duration) *Invocation {
+	w.slowAfter, w.slowPause = after, pause
+	defer func() { w.slowPause = 0 }()
+	return w.Invoke(payload, clientCtx, traceID)
+}
+
 func (w *World) Invoke(payload []byte, clientCtx, traceID string) *Invocation {
 	r := w.r
 	r.NextStep()
@@ -315,12 +326,16 @@ func (w *World) Invoke(payload []byte, clientCtx, traceID string) *Invocation {
 	if traceID != "" {
 		hdr["X-Amzn-Trace-Id"] = traceID
 	}
-	inv.Conn = r.Dial(FrontAddr)
+	if w.slowPause > 0 {
+		inv.Conn = r.DialCap(FrontAddr, 64<<10)
+	} else {
+		inv.Conn = r.Dial(FrontAddr)
+	}
 	body := payload
 	if body == nil {
 		body = []byte{}
 	}
-	inv.Call = inv.Conn.Start(fmt.Sprintf("caller%d", inv.N), "POST", InvokePath, hdr, body)
+	inv.Call = inv.Conn.StartSlow(fmt.Sprintf("caller%d", inv.N), "POST", InvokePath, hdr, body, w.slowAfter, w.slowPause)
 	w.Invokes = append(w.Invokes, inv)
 	r.Settle()
 	return inv
